@@ -137,7 +137,7 @@ func c11body(maxConns, nStanzas int) func() {
 				if s.cl.Session.BindJid != bindBefore || s.cl.Session.SMState.Id != idBefore || s.cl.Session.SMState.Inbound != inBefore {
 					vrt.Fail("C11|identity-changed-by-resume", "%s: jid %q->%q id %q->%q inbound %d->%d", hist, bindBefore, s.cl.Session.BindJid, idBefore, s.cl.Session.SMState.Id, inBefore, s.cl.Session.SMState.Inbound)
 				}
-				if q := c11queue(s.cl); q != queueBefore {
+				if q := c11queue(s.cl); !strings.HasPrefix(q, queueBefore) {
 					vrt.Fail("C11|held-stanzas-changed-by-resume", "%s: held %q -> %q", hist, queueBefore, q)
 				}
 				refMaybe = false
